@@ -38,7 +38,7 @@ Proof.
   specialize (H i Hi). rewrite K in H. cbn in H. apply negb_true_iff in H. exact H.
 Qed.
 
-Example C04_nonvacuous : (83 <=? List.length ids)%nat = true /\ List.length ctx_ids = 10%nat /\
+Example C04_nonvacuous : (120 <=? List.length ids)%nat = true /\ List.length ctx_ids = 10%nat /\
   length (filter k_c04_rejected ids) = 5%nat.
 Proof. vm_compute. auto. Qed.
 
